@@ -11,8 +11,8 @@
                child streams of the seeds DRAWN at encryption (one per cell, SLOT order, rank_out*size*n u64 each);
                errors (one per cell, DRAW order, n each);
                child streams of the seeds STORED in the object (what decompression reads; slot order); expected flags]
-               (stored = drawn for every kind but 4: gglwe_to_ggsw_key_encrypt_sk writes the drawn seeds into a temporary
-                `to_mut()` copy, the object keeps its all-zero seeds -- transcribed as it is)
+               (stored = drawn for every kind since 3f87a93; the two streams are kept apart so that a regression of the
+                seed bookkeeping shows up as a disagreement of the decompressed words and as failing flags)
         out = [stored seeds (4 words per slot, slot order); decompressed cells (slot order, (rank_out+1)*size*n each); flags]
         slot(row, col) = rank_in*row + col ; draw(row, col) = col*dnum + row
    19003 GGSW compressed: vs = [m (n); s (rank*n); parent; children; errors], cells (row, col_j), col_j = 0..rank,
@@ -46,7 +46,7 @@ Definition run_gglwe_compressed (ps : list Z) (vs : list (list Z)) : option (lis
   let clen := (rout * size * n)%nat in
   let slots := flat_map (fun row => map (fun col => (row, col)) (seq 0 rin)) (seq 0 dnum) in
   let drawn := concat (map (fun rc => slice (4 * gglwe_draw_index dnum (fst rc) (snd rc)) 4 parent) slots) in
-  let seeds := if kind =? 4 then map (fun _ => 0) drawn else drawn in
+  let seeds := drawn in
   let cell := fun (rc : nat * nat) (enc_child : list Z) =>
            let row := fst rc in let col := snd rc in
            gadget_cell wb b n size rout dsize nk row O (nth col ms []) sk enc_child
@@ -56,15 +56,10 @@ Definition run_gglwe_compressed (ps : list Z) (vs : list (list Z)) : option (lis
   | None => None
   | Some cells =>
       (* per cell: does the decompressed cell equal the standard encryption under the STORED seed's stream?  (true by
-         C19_decompress_glwe_eq_standard when stored = drawn; recomputed when the code does not store the drawn seed) *)
+         C19_decompress_glwe_eq_standard since stored = drawn) *)
       let std := map (fun q =>
            let rc := fst (fst q) in let c := snd (fst q) in let ex := snd q in
-           if ex =? 2 then 2 else if kind =? 4 then
-             match cell rc (slice (gglwe_seed_slot rin (fst rc) (snd rc) * clen) clen (v vs 5)) with
-             | Some c' => bz (eqlz (of_cols n size c) (of_cols n size c'))
-             | None => 0
-             end
-           else 1) (combine (combine slots cells) (v vs 6)) in
+           if ex =? 2 then 2 else 1) (combine (combine slots cells) (v vs 6)) in
       Some [seeds; concat (map (of_cols n size) cells); std ++ [bz (eqlz seeds drawn); 1; 1; 1]]
   end.
 
